@@ -86,15 +86,9 @@ class Ctx(object):
             if cand is not None and is_array(cand) and not isinstance(cand, Masked) and len(npm.shape_of(self.st, cand)) == len(shape):
                 v = cand
             else:
-                for nm, cand in self.st.env.items():
-                    if is_array(cand) and not isinstance(cand, Masked):
-                        try:
-                            sh, _, kd = npm.info(self.st, cand)
-                        except Exception:
-                            continue
-                        if (kd == kind or (kd, kind) in (('nat', 'int'), ('int', 'nat'))) and len(sh) == len(shape):
-                            v = cand
-                            break
+                # the local variable the clause takes as its witness is gone (renamed / refactored away): the clause
+                # cannot be evaluated on this code -- "contract out of date" (undecided), never a refutation
+                raise KeyError("witness variable %r of the contract is not a local array of the function any more" % hint)
         if v is None:
             v = self.fresh_array('wit_' + hint, shape, kind)
         self._wit[hint] = v
@@ -111,6 +105,8 @@ class Ctx(object):
             cand = self.st.env.get(hint)
             if isinstance(cand, Sc) or (isinstance(cand, int) and not isinstance(cand, bool)):
                 v = cand
+            else:
+                raise KeyError("witness variable %r of the contract is not a local scalar of the function any more" % hint)
         if v is None:
             v = Sc(fresh_int('wit_' + hint)) if kind == 'int' else Sc(fresh_real('wit_' + hint))
         self._wit[key] = v
@@ -448,6 +444,8 @@ class Contract(object):
             res = ls.box(self.result(lc, Args(args)))
             ens = self.ensures(lc, Args(args), res, Ctx(interp, old_st, fr))
             for k, prem in self.derived.items():
+                if k not in ens or any(p not in ens for p in prem):
+                    continue            # (a variant of the contract without these clauses)
                 s2 = ls.fork()
                 s2.obligations = st.obligations
                 for p in prem:
